@@ -190,6 +190,12 @@ func (c *churnRun) exec(r *rand.Rand, o OpRec) OpRec {
 		o.Err = err.Error()
 		o.Retryable = chord.ErrorIsRetryable(err)
 		o.Timeout = errors.Is(err, context.DeadlineExceeded)
+		if _, defined := chord.ErrorCanonical(err); c.cfg.RealRPC && !defined {
+			// over the real RPC path an error that is not a DHT error is a transport failure
+			// (connection refused by a node that just left, stream reset, request cancelled):
+			// like a timeout it says nothing about whether the call was executed
+			o.Timeout = true
+		}
 		if (o.Kind == OpAppend && errors.Is(err, chord.ErrKVPrefixConflict)) ||
 			((o.Kind == OpPut || o.Kind == OpDelete) && errors.Is(err, chord.ErrKVSimpleConflict)) {
 			o.Conflict = true
